@@ -21,7 +21,20 @@ def run(prop, path):
             print('  WF:', b)
     except Exception as e:      # noqa
         print('load raised', type(e).__name__, e)
-    lean = core.run_driver([inp['sexp']])
+    # the lock step on this input, now: the calls the XML library makes, replayed through the stack machine of the model
+    pyt = {}
+    sq, st = core.sax_of_last_load(pyt)
+    sexp = inp['sexp']
+    if sq and sexp.rstrip().endswith(')'):
+        sexp = sexp.rstrip()[:-1] + ' (queries %s))' % ' '.join(sq) if '(queries' not in sexp else sexp
+    lean = core.run_driver([sexp])
+    for t_ in st:
+        same = sorted(pyt.get(t_, [])) == sorted(lean.get('replay', {}).get(t_, []))
+        print('  lock step %s: %s' % (t_, 'parser object and stack machine agree call by call' if same else 'DIFFER'))
+        if not same:
+            a_ = (pyt.get(t_) or [''])[0].split(';'); b_ = (lean.get('replay', {}).get(t_) or [''])[0].split(';')
+            k_ = next((i_ for i_, (x_, y_) in enumerate(zip(a_, b_)) if x_ != y_), min(len(a_), len(b_)))
+            print('    first difference at call %d: pyham %s | model %s' % (k_, a_[k_:k_ + 1], b_[k_:k_ + 1]))
     for tag, v in sorted(lean.get('replay', {}).items()):
         for x in v[:4]:
             print('  model', tag, x[:300])
